@@ -891,12 +891,23 @@ class VmapBatchHandler:
         outer_batch_dim = self._compute_outer_batch_dim(n, axis_size)
         new_sample_shape = outer_batch_dim + self.config.sample_shape
 
+        # The sampler broadcasts parameter batch dimensions from the left: bring every
+        # mapped axis to the front so that lanes pair up whatever `in_axes` was.
+        vector_args = tuple(
+            arg if axis is None else jtu.tree_map(lambda a: jnp.moveaxis(a, axis, 0), arg)
+            for arg, axis in zip(vector_args, batch_axes)
+        )
+
         # Create new sampler with updated sample shape
         new_config = self.config.with_sample_shape(new_sample_shape)
         result = create_sample_primitive(new_config)(*vector_args)
 
-        # Return with appropriate output axes
-        out_axes = (0 if n or axis_size else None,)
+        # Samples are laid out as sample_shape + parameter batch shape: when the lanes come
+        # from batched parameters, the mapped axis sits after the site's own sample_shape.
+        if n is not None:
+            out_axes = (len(self.config.sample_shape),)
+        else:
+            out_axes = (0 if axis_size else None,)
         return (result,), out_axes
 
     def _compute_outer_batch_dim(self, n, axis_size):
